@@ -1,4 +1,5 @@
 import Mkts.Model.Bytes
+import Mkts.Extracted.Skeletons
 /-!
 # Trigger dispatch (mirrors `executor/written.go`, `plugins/trigger/trigger.go: Matcher.Match,
 Record.Index/Payload`, and the tail of `executor/wal.go: FlushCommandsToWAL` / `serializeTG`)
@@ -11,8 +12,10 @@ Record.Index/Payload`, and the tail of `executor/wal.go: FlushCommandsToWAL` / `
   `DispatchRecords()`, which sends one `writtenRecords{key, records}` per key of `tpd.m` (any order)
   to the channel and resets `tpd.m = nil`.
 * `run` receives the channel in FIFO order and, per element, walks the matchers in configuration
-  order; `Match` is `regexp.MatchString(strings.Replace(On, "*", "[^/]+", -1), keyPath)`, i.e. an
-  UNANCHORED search.
+  order; `Match` is `regexp.MatchString("^" + strings.Replace(On, "*", "[^/]+", -1), keyPath)`: the
+  translated pattern must match a PREFIX of the key path (repair of C32-F1; before it the pattern was
+  searched anywhere in the path).  Which of the two the CURRENT source does is read off the
+  regenerated skeleton of `Matcher.Match` (`anchoredInCode`), so the model follows the code.
 
 Go maps are association lists here; wherever Go iterates a map the theorems quantify over every
 order.  Core Lean only.
@@ -58,8 +61,21 @@ def matchAny (p : List Tok) : List Char → Bool
   | [] => matchHere p []
   | x :: s => matchHere p (x :: s) || matchAny p s
 
-/-- `tm.Match(keyPath)` -/
-def «match» (on key : Str) : Bool := matchAny (translate on) key
+/-- the body of `Matcher.Match` after the repair (skeleton with assignments and returned expressions) -/
+def expMatchAnchored : List String :=
+  ["call:strings.Replace", "assign:pattern=\"^\" + strings.Replace(tm.On, \"*\", \"[^/]+\", -1)",
+   "call:regexp.MatchString", "assign:matched,_=regexp.MatchString(pattern, keyPath)", "ret:matched", "return"]
+
+/-- does `Matcher.Match` of the CURRENT source anchor the pattern at the start of the key path?
+    (regenerated from the repository on every run; any other body counts as the unanchored search) -/
+def anchoredInCode : Bool := Mkts.Extracted.Skel.plugins_trigger_Matcher_Match == expMatchAnchored
+
+/-- `tm.Match(keyPath)` for either form of the source -/
+def matchWith (anchored : Bool) (on key : Str) : Bool :=
+  if anchored then matchHere (translate on) key else matchAny (translate on) key
+
+/-- `tm.Match(keyPath)` of the current source -/
+def «match» (on key : Str) : Bool := matchWith anchoredInCode on key
 
 /-! ### specification of the match: regular-language semantics and component-wise globbing -/
 
@@ -71,6 +87,9 @@ inductive Denote : List Tok → List Char → Prop
 
 /-- unanchored search: some substring is in the language -/
 def Matches (p : List Tok) (s : List Char) : Prop := ∃ a m b, s = a ++ m ++ b ∧ Denote p m
+
+/-- anchored at the start: some prefix is in the language -/
+def PrefixMatches (p : List Tok) (s : List Char) : Prop := ∃ m b, s = m ++ b ∧ Denote p m
 
 /-- a pattern component over `{*, literal}` -/
 inductive Comp
